@@ -217,7 +217,7 @@ func runC07(c *Ctx) {
 			}
 			// case B: write-back of next, needs an active lease
 			if stripRoot(k) == ".next" {
-				edges := f.RelEdges(func(rel Rel) bool {
+				edges := f.RelEdgesAt(func(rel Rel) bool {
 					l, rr := stripRoot(rel.L), stripRoot(rel.R)
 					switch {
 					case rel.Op == "<" && l == ".next" && rr == ".reserved":
@@ -343,7 +343,7 @@ func runC07(c *Ctx) {
 		if len(reads) != 1 {
 			r.Fail("seq/next-guard", "kvstore.Sequence.Next", p.posStr(fd.Pos()), fmt.Sprintf("expected one read of next into the result, found %d", len(reads)))
 		} else {
-			edges := f.RelEdges(func(rel Rel) bool {
+			edges := f.RelEdgesAt(func(rel Rel) bool {
 				return rel.Op == "<" && stripRoot(rel.L) == ".next" && stripRoot(rel.R) == ".reserved"
 			})
 			for _, sc := range f.Calls(isStoreSet) {
